@@ -626,6 +626,19 @@ func c11prop(ev *evid.Rec) func(rt *rapid.T) {
 					mutated(n)
 					delete(s.lookup(p).kids, n.name)
 				},
+				"commentFolderThenDelete": func(rt *rapid.T) {
+					// a folder is given a comment and deleted afterwards: the folder vanishes with everything that belongs to it, so
+					// that whatever takes the name next starts afresh (the disk comparison that follows sees a side file left behind)
+					s.rt = rt
+					p, n := pickEntry("what", func(n *fnode) bool { return n.kind == "dir" && len(n.name) <= 249 })
+					if n == nil {
+						rt.Skip()
+					}
+					rec("set-comment on the folder %v/%q, then delete it", p, n.name)
+					s.mutate(fmt.Sprintf("set-comment on the folder %q in %v", n.name, p), hlref.TranSetFileInfo, append(nameFields(p, n), sfld(hlref.FFileComment, "a folder's comment"))...)
+					s.mutate(fmt.Sprintf("delete of the folder %q in %v", n.name, p), hlref.TranDeleteFile, nameFields(p, n)...)
+					delete(s.lookup(p).kids, n.name)
+				},
 				"setComment": func(rt *rapid.T) {
 					s.rt = rt
 					p, n := pickEntry("what", func(n *fnode) bool { return n.kind == "file" && !n.partial && len(n.name) <= 249 })
